@@ -50,6 +50,20 @@ def resolve_key(keyname):
     if "+s:" in keyname:
         keyname, sn = keyname.split("+s:", 1)
         sender = keys()[sn]
+    if keyname.startswith("call:nested:"):
+        inner = keys()[keyname[len("call:nested:"):]]
+
+        def nested(obj):
+            # a key callable that itself processes a hostile token before answering
+            from joserfc import jws as _jws, jwe as _jwe
+            for f, v in ((_jws.deserialize_compact, "ImFsZyI.e30.e30"), (_jwe.decrypt_compact, "ImFsZ2VuYyI...."),
+                         (_jwe.decrypt_json, {"protected": "e30", "iv": "", "ciphertext": "", "tag": ""})):
+                try:
+                    f(v, inner)
+                except Exception:  # noqa
+                    pass
+            return inner
+        return nested, sender
     if keyname.startswith("call:"):
         what = keyname[5:]
         ret = {"str": "secret-secret-secret-secret-1234", "bytes": b"0123456789abcdef", "emptystr": "", "none": None, "int": 5,
@@ -263,7 +277,40 @@ ENTRIES_COMPACT = ["jws.deserialize_compact", "rfc7797.deserialize_compact", "jw
 ENTRIES_JSON = ["jws.deserialize_json", "rfc7797.deserialize_json", "jwe.decrypt_json"]
 
 
+FEW_JWS = ["HS256", "ES256"]
+FEW_JWE = ["dir", "A128KW", "ECDH-ES", "A128GCM", "A128CBC-HS256", "DEF"]
+
+
 def call_entry(entry: str, value, keyname: str, reg: str):
+    if entry == "jws.extract+validate":
+        # the two public steps of deserialize_compact; a False result is a rejection, not an escape
+        from joserfc import jws as _jws, util as _util
+        key, _ = resolve_key(keyname)
+        obj = _jws.extract_compact(_util.to_bytes(value))
+        kw = {"algorithms": JWS_ALGS} if reg in ("all", "lax") else {"algorithms": FEW_JWS} if reg == "few" else {}
+        return _jws.validate_compact(obj, key, **kw)
+    if entry == "jws.detach+verify":
+        # detach_content is a producer-side helper (not in the statement): only what verification does with its
+        # output is judged; its own failure on a string without two dots is not
+        from joserfc import jws as _jws, rfc7797 as _r
+        key, _ = resolve_key(keyname)
+        try:
+            d = _jws.detach_content(value)
+        except Exception:  # noqa
+            return "detach_content raised"
+        seg = value.split(".")[1] if isinstance(value, str) and value.count(".") >= 1 else ""
+        kw = {"algorithms": JWS_ALGS} if reg != "default" else {}
+        try:
+            _jws.deserialize_compact(d, key, **kw)
+        except (ValueError, Exception) as e:  # noqa
+            from joserfc.errors import JoseError
+            if not isinstance(e, (ValueError, JoseError)):
+                raise
+        return _r.deserialize_compact(d, key, payload=seg, **kw)
+    return _call_entry(entry, value, keyname, reg)
+
+
+def _call_entry(entry: str, value, keyname: str, reg: str):
     """reg: 'default' (library default registry), 'all' (every registered algorithm allowed),
     'lax' (all algorithms, strict_check_header=False)"""
     from joserfc import jws, jwe, jwt, rfc7797
@@ -273,6 +320,8 @@ def call_entry(entry: str, value, keyname: str, reg: str):
         kw = {}
         if reg == "all":
             kw = {"algorithms": JWS_ALGS}
+        elif reg == "few":
+            kw = {"algorithms": FEW_JWS}
         elif reg == "lax":
             kw = {"registry": jws.JWSRegistry(algorithms=JWS_ALGS, strict_check_header=False)}
         f = {"jws.deserialize_compact": jws.deserialize_compact, "jws.deserialize_json": jws.deserialize_json,
@@ -282,6 +331,8 @@ def call_entry(entry: str, value, keyname: str, reg: str):
         kw = {}
         if reg == "all":
             kw = {"algorithms": JWS_ALGS}
+        elif reg == "few":
+            kw = {"algorithms": FEW_JWS}
         elif reg == "lax":
             kw = {"registry": R7797(algorithms=JWS_ALGS, strict_check_header=False)}
         f = rfc7797.deserialize_compact if entry.endswith("compact") else rfc7797.deserialize_json
@@ -290,6 +341,8 @@ def call_entry(entry: str, value, keyname: str, reg: str):
         kw = {}
         if reg == "all":
             kw = {"algorithms": JWE_ALL}
+        elif reg == "few":
+            kw = {"algorithms": FEW_JWE}
         elif reg == "lax":
             kw = {"registry": jwe.JWERegistry(algorithms=JWE_ALL, strict_check_header=False)}
         elif reg == "any1":
@@ -301,6 +354,8 @@ def call_entry(entry: str, value, keyname: str, reg: str):
     if entry == "jwt.decode/jwe":
         if reg == "default":
             r = jwe.JWERegistry()
+        elif reg == "few":
+            r = jwe.JWERegistry(algorithms=FEW_JWE)
         elif reg == "lax":
             r = jwe.JWERegistry(algorithms=JWE_ALL, strict_check_header=False)
         else:
@@ -410,6 +465,8 @@ def has_deep(v, depth=0):
 
 
 def enc_value(v):
+    if isinstance(v, (bytearray, memoryview)):
+        return {"t": type(v).__name__, "hex": bytes(v).hex()}
     if isinstance(v, bytes):
         return {"t": "bytes", "hex": v.hex()} if len(v) < 20000 else {"t": "bytes", "hex": v[:64].hex(), "len": len(v), "sha1": __import__("hashlib").sha1(v).hexdigest(), "z": base64.b64encode(zlib.compress(v)).decode()}
     if isinstance(v, str):
@@ -418,6 +475,10 @@ def enc_value(v):
 
 
 def dec_value(d):
+    if d["t"] == "bytearray":
+        return bytearray.fromhex(d["hex"])
+    if d["t"] == "memoryview":
+        return memoryview(bytes.fromhex(d["hex"]))
     if d["t"] == "bytes":
         return zlib.decompress(base64.b64decode(d["z"])) if "z" in d else bytes.fromhex(d["hex"])
     if d["t"] == "strz":
@@ -1044,7 +1105,69 @@ def all_calls(rng, quick=True):
     lib_calls, cov = stream_library(rng, quick)
     calls += lib_calls
     LAST_COVERAGE.clear(); LAST_COVERAGE.update(cov)
+    calls += stream_last_recipient(rng, quick)
+    return widen(rng, calls, quick)
+
+
+def stream_last_recipient(rng, quick=True):
+    """general JWE JSON with a valid FIRST recipient and the hostile header in the LAST one (and the reverse),
+    general JWS JSON with the hostile header in the last signature"""
+    calls = []
+    pt = b'{"iss":"a"}'
+    muts = [x for x in jwe_mutants(rng, True) if isinstance(x[0], dict) and x[3].startswith("member:")]
+    if quick:
+        muts = rng.sample(muts, min(len(muts), 700))
+    for h, base, kn, kind in muts:
+        m = kind.split(":", 1)[1].split(".")[0].replace("-removed", "")
+        if m in ("enc", "zip") or m not in h:
+            continue
+        good = {"header": {"alg": "dir", "kid": "oct16"}}
+        bad = {"header": {"alg": base["alg"], m: h[m]}}
+        if base["alg"] != "dir":
+            bad["encrypted_key"] = b64u(bytes(24))
+        for recs in ([good, bad], [bad, good], [good, good, bad]):
+            d = jwe_dir_json({"enc": "A128GCM"}, pt, "A128GCM", "oct16", general=True)
+            d["recipients"] = recs
+            for k in ("oct16", "set:all"):
+                calls.append(("jwe.decrypt_json", d, k, rng.choice(["all", "any1", "lax"]), "lastrec/jwe"))
+    pseg = b64u(pt)
+    good = jws_member({"alg": "HS256"}, {"kid": "oct32"}, pseg, "HS256", "oct32")
+    for h, alg, kn, kind in rng.sample(jws_mutants(rng, True), 400 if quick else 4000):
+        if not isinstance(h, dict):
+            continue
+        mem = jws_member({"alg": alg}, {k: v for k, v in h.items() if k != "alg"}, pseg, alg, kn)
+        for sigs in ([good, mem], [mem, good], [good, good, mem]):
+            for e in ("jws.deserialize_json", "rfc7797.deserialize_json"):
+                calls.append((e, {"payload": pseg, "signatures": sigs}, rng.choice(["oct32", "set:all", kn]), rng.choice(["all", "lax"]), "lastrec/jws"))
     return calls
+
+
+def widen(rng, calls, quick=True):
+    """every generated call also reaches: the two-step extract/validate and detach-then-verify entries, token inputs of
+    type bytearray / memoryview, restricted `algorithms=` lists, nested key callables, and (history) the same hostile
+    token a second time on the same registries and keys"""
+    out = []
+    for c in calls:
+        out.append(c)
+        e, v, k, reg, tag = c
+        r = rng.random()
+        if e == "jws.deserialize_compact" and r < 0.12:
+            out.append(("jws.extract+validate", v, k.split("+s:")[0], reg if reg != "few" else "all", tag + "|2step"))
+        elif e == "jws.deserialize_compact" and r < 0.16 and isinstance(v, str):
+            out.append(("jws.detach+verify", v, k.split("+s:")[0], reg, tag + "|detach"))
+        elif r < 0.19 and isinstance(v, (str, bytes)) and e in ENTRIES_COMPACT:
+            try:
+                b = v if isinstance(v, bytes) else v.encode("utf-8")
+                out.append((e, bytearray(b) if rng.random() < 0.6 else memoryview(b), k, reg, tag + "|buffer"))
+            except UnicodeEncodeError:
+                pass
+        elif r < 0.22:
+            out.append((e, v, k, "few", tag + "|few"))
+        elif r < 0.235 and "+s:" not in k and not k.startswith("call:") and e not in ("jws.extract+validate", "jws.detach+verify"):
+            out.append((e, v, "call:nested:" + k, reg, tag + "|nested"))
+        elif r < 0.255:
+            out.append((e, v, k, reg, tag + "|twice"))
+    return out
 
 
 LAST_COVERAGE = {}
@@ -1552,6 +1675,15 @@ def stream_boundaries(rng, quick=True):
                     calls.append(("jwe.decrypt_json", d, kn, "all", t))
                     calls.append(("jwe.decrypt_json", {k: v for k, v in d.items() if k != "encrypted_key"} | {"recipients": [{"encrypted_key": b64u(ek)} if ek else {}]},
                                   kn, "all", t))
+    # --- JWS with an empty payload (genuinely signed), every family
+    for alg, kn in JWS_FAMILIES + JWS_FAMILIES_MORE:
+        tok = jws_compact({"alg": alg}, b"", alg, kn)
+        for e in ("jws.deserialize_compact", "rfc7797.deserialize_compact", "jwt.decode/jws"):
+            calls.append((e, tok, kn, "all", "bnd/jws/empty-payload"))
+        mem = jws_member({"alg": alg}, None, "", alg, kn)
+        for e in ("jws.deserialize_json", "rfc7797.deserialize_json"):
+            calls.append((e, {"payload": "", **mem}, kn, "all", "bnd/jws/empty-payload"))
+            calls.append((e, {"payload": "", "signatures": [mem]}, kn, "all", "bnd/jws/empty-payload"))
     # --- GCM / ChaCha: empty ciphertext with a genuine tag, huge AAD
     for enc in ("A128GCM", "A192GCM", "A256GCM", "C20P", "XC20P"):
         kn = {16: "oct16", 24: "oct24", 32: "oct32"}[ENC_CEK[enc]]
